@@ -1230,6 +1230,14 @@ static void huge_chains(const plan_t *p)
 /* tables that run on the library's own functions, handed over BY NAME (cstl_hash_div, cstl_hash_mul: an implementation may treat
  * its own functions specially), with keys from the whole of size_t: small ones, keys that differ only above bit 31, keys near
  * SIZE_MAX. Lookups, erases and inserts fall into the middle of every rehash; the oracle is a plain set of keys. */
+/* ... and a caller's function beside them, which can be told to return an out-of-range value on its n-th consultation from now:
+ * whichever function is being left or entered at that moment, the operation must abort (C17) */
+static unsigned bt_bad_at, bt_bad_returned;
+static size_t bt_custom(size_t k, size_t m)
+{
+    if (bt_bad_at && --bt_bad_at == 0) { bt_bad_returned = 1; return m + (k % 3) * ((size_t)1 << 32); }
+    return (k ^ (k >> 17)) % m;
+}
 static void builtin_tables(const plan_t *p)
 {
     struct simheap_cfg hc = { RP_MOVE, (uint64_t)1 << 24, (unsigned char)p->cfg[CF_JUNK] };
@@ -1244,6 +1252,14 @@ static void builtin_tables(const plan_t *p)
     memset(&ht, (int)(unsigned char)p->cfg[CF_JUNK], sizeof ht);
     cstl_hash_init(&ht, offsetof(struct xelem, hn));
     memset(in, 0, sizeof in);
+    bt_bad_at = 0; bt_bad_returned = 0;
+    /* after every library call: an out-of-range value must have stopped it; nothing else may */
+#define BT_AFTER(what) do { \
+        if (bt_bad_returned) { \
+            if (!g_aborted) { g_cur_prop = "C17"; VIOLP("C17", "no_abort", "%s: the caller's hash function returned an out-of-range value while the table was between it and a built-in function, and the operation did not abort", what); } \
+            PROBE("builtin_tables_bad_value_aborted"); g_run.ended_by_abort = 1; g_run.nontrivial = 1; EVT("abort", 0, 0, 0); bt_bad_at = 0; bt_bad_returned = 0; return; \
+        } \
+        if (g_aborted) VIOL("abort", "%s aborted", what); } while (0)
     for (i = 0; i < NB; i++) {
         uint64_t k = prng_below(&r, 40);
         switch (prng_below(&r, 5)) {
@@ -1259,41 +1275,44 @@ static void builtin_tables(const plan_t *p)
     for (round = 0; round < 6; round++) {
         size_t m = 1 + (size_t)prng_below(&r, round == 0 ? 12 : 90);
         cstl_hash_func_t *f = prng_chance(&r, 1, 2) ? cstl_hash_div : cstl_hash_mul;
-        int steps = 4 + (int)prng_below(&r, 60), q;
+        int steps = 4 + (int)prng_below(&r, 60), q, arm_step = -1;
         if (round > 0 && prng_chance(&r, 1, 4)) f = NULL;      /* keep the function in use */
+        if ((p->cfg[CF_TABSEED] >> 40 & 1) && prng_chance(&r, 1, 3)) f = bt_custom;      /* in half of the runs a caller's function takes turns with the built-in ones */
+        if ((p->cfg[CF_TABSEED] >> 41 & 1) && round >= 1) arm_step = (int)prng_below(&r, (uint64_t)steps);
         g_run.opkind = O_RESIZE;
-        TRY(cstl_hash_resize(&ht, m, f));
-        if (g_aborted) VIOL("abort", "resize aborted");
+        TRY(cstl_hash_resize(&ht, m, f)); BT_AFTER("resize");
         for (q = 0; q < steps; q++) {
             int e = (int)prng_below(&r, NB), j, dup = 0;
+            if (q == arm_step && !bt_bad_at) { bt_bad_at = 1 + (unsigned)prng_below(&r, 3); PROBE("builtin_tables_bad_value_armed"); }
             switch (prng_below(&r, 4)) {
             case 0: case 1:
                 if (in[e]) break;
                 for (j = 0; j < NB; j++) if (in[j] && key[j] == key[e]) dup = 1;
                 if (dup) break;        /* one element per key keeps the oracle a set */
                 g_run.opkind = O_INSERT;
-                TRY(cstl_hash_insert(&ht, key[e], &pool[e])); in[e] = 1; live++; n++;
+                TRY(cstl_hash_insert(&ht, key[e], &pool[e])); BT_AFTER("insert"); in[e] = 1; live++; n++;
                 break;
             case 2:
                 if (!in[e]) break;
                 g_run.opkind = O_ERASE;
-                TRY(cstl_hash_erase(&ht, &pool[e])); in[e] = 0; live--;
+                TRY(cstl_hash_erase(&ht, &pool[e])); BT_AFTER("erase"); in[e] = 0; live--;
                 break;
             default: break;
             }
             /* a lookup of some key, present or not, after every step */
             e = (int)prng_below(&r, NB);
             g_run.opkind = O_FIND;
-            TRY(ret = cstl_hash_find(&ht, key[e], NULL, NULL));
+            TRY(ret = cstl_hash_find(&ht, key[e], NULL, NULL)); BT_AFTER("find");
             { void *want = NULL; for (j = 0; j < NB; j++) if (in[j] && key[j] == key[e]) want = &pool[j];
               if (ret != want) VIOL(want ? "lost_element" : "find_absent", "table on a built-in function passed by name: find of key %#zx returned %s (the key is %s)", key[e], ret ? "an element" : "NULL", want ? "held" : "not held"); }
             if (cstl_hash_size(&ht) != live) VIOL("size", "size is %zu, %zu elements are held", cstl_hash_size(&ht), live);
         }
-        if (prng_chance(&r, 1, 3)) { g_run.opkind = O_REHASH; TRY(cstl_hash_rehash(&ht)); }
+        if (prng_chance(&r, 1, 3)) { g_run.opkind = O_REHASH; TRY(cstl_hash_rehash(&ht)); BT_AFTER("rehash"); }
     }
+    bt_bad_at = 0;
     for (i = 0; i < NB; i++) if (in[i]) {
         g_run.opkind = O_FIND;
-        TRY(ret = cstl_hash_find(&ht, key[i], NULL, NULL));
+        TRY(ret = cstl_hash_find(&ht, key[i], NULL, NULL)); BT_AFTER("find");
         if (ret != &pool[i]) VIOL("lost_element", "table on a built-in function passed by name: the element with key %#zx is not found at the end", key[i]);
     }
     g_cur_prop = "C04"; g_run.opkind = O_FOREACH_CONST; hc_seen = 0;
